@@ -1,6 +1,7 @@
 package main
 
 import (
+	"go/types"
 	"strings"
 	"fmt"
 	"math/big"
@@ -74,6 +75,14 @@ func (x *Exec) iterKey(st *State, it *IterState) *KeyVal {
 	default:
 		for i := range it.Fam.KeySorts {
 			kv.Args = append(kv.Args, SelField(k, i))
+		}
+	}
+	// a stored key was built by the key constructor from values of its parameter types: machine integers are in range
+	if fn := x.prog.funcsByKey[it.Fam.KeyFunc]; fn != nil && len(fn.Params) == len(kv.Args) {
+		for i, prm := range fn.Params {
+			if _, isBasic := prm.Type().Underlying().(*types.Basic); isBasic && kv.Args[i].Sort == SInt {
+				st.assume(TypeInv(kv.Args[i], prm.Type(), 0))
+			}
 		}
 	}
 	return kv
